@@ -169,7 +169,7 @@ class Lexer:
                     hex_str += self._advance()
                 if not hex_str:
                     raise JSSyntaxError("Invalid hex literal", line, col)
-                return int(hex_str, 16)
+                return self._integer_value(int(hex_str, 16))
             elif next_ch and next_ch in "oO":
                 # Octal
                 self._advance()  # 0
@@ -179,7 +179,7 @@ class Lexer:
                     oct_str += self._advance()
                 if not oct_str:
                     raise JSSyntaxError("Invalid octal literal", line, col)
-                return int(oct_str, 8)
+                return self._integer_value(int(oct_str, 8))
             elif next_ch and next_ch in "bB":
                 # Binary
                 self._advance()  # 0
@@ -189,19 +189,19 @@ class Lexer:
                     bin_str += self._advance()
                 if not bin_str:
                     raise JSSyntaxError("Invalid binary literal", line, col)
-                return int(bin_str, 2)
+                return self._integer_value(int(bin_str, 2))
             # Could be 0, 0.xxx, or 0e... - fall through to decimal handling
 
         # Decimal number (integer part)
-        while self._current() and self._current().isdigit():
+        while self._current() and self._current() in "0123456789":
             self._advance()
 
         # Decimal point
         is_float = False
-        if self._current() == "." and self._peek().isdigit():
+        if self._current() == "." and self._peek() and self._peek() in "0123456789":
             is_float = True
             self._advance()  # .
-            while self._current() and self._current().isdigit():
+            while self._current() and self._current() in "0123456789":
                 self._advance()
 
         # Exponent
@@ -210,15 +210,22 @@ class Lexer:
             self._advance()
             if self._current() in "+-":
                 self._advance()
-            if not self._current() or not self._current().isdigit():
+            if not self._current() or self._current() not in "0123456789":
                 raise JSSyntaxError("Invalid number literal", line, col)
-            while self._current() and self._current().isdigit():
+            while self._current() and self._current() in "0123456789":
                 self._advance()
 
         num_str = self.source[start : self.pos]
-        if is_float:
-            return float(num_str)
+        if is_float or len(num_str) > 15:
+            # Numbers are doubles: long digit strings are rounded, not kept exact
+            value = float(num_str)
+            return int(value) if not is_float and value <= 2**53 else value
         return int(num_str)
+
+    @staticmethod
+    def _integer_value(value: int) -> float | int:
+        """An integer literal as a Number: exact up to 2**53, a double beyond."""
+        return value if value <= 2**53 else float(value)
 
     def _read_identifier(self) -> str:
         """Read an identifier."""
@@ -247,7 +254,9 @@ class Lexer:
             return Token(TokenType.STRING, value, line, column)
 
         # Number literals
-        if ch.isdigit() or (ch == "." and self._peek().isdigit()):
+        if ch in "0123456789" or (
+            ch == "." and self._peek() and self._peek() in "0123456789"
+        ):
             value = self._read_number()
             return Token(TokenType.NUMBER, value, line, column)
 
